@@ -652,7 +652,9 @@ def gen_module(rng, letters, imported_rules, imported_terms, imported_templates,
         tm = rng.choice(['', '', '?', '!']) if not tn.startswith('_') else ''
         if '!' in tm and lit_template_arg(alts):
             tm = ''
-        tdefs.append(('rule', tm, tn, ps, None, alts))
+        # templates carry every modifier an ordinary rule can have, the priority included (seeded change C17-g)
+        tprio = None if rng.random() < 0.6 else rng.choice([1, 2, 3, -1])
+        tdefs.append(('rule', tm, tn, ps, tprio, alts))
         templates[tn] = len(ps)
     rules = list(imported_rules)
     rdefs = []
@@ -1097,8 +1099,9 @@ def record_templates(main_text, d):
         res = orig(self, c)
         app = self.rule_defs[n0:]
         if argterms is not None and len(app) <= 1:
-            appended = 'None' if not app else '(Some (%s, %s))' % (S(str(app[0][0])), ct(app[0][2]))
-            ok_shape = (not app) or (list(app[0][1]) == [])
+            ok_shape = (not app) or (list(app[0][1]) == [] and app[0][3] is not None)
+            appended = 'None' if not (app and ok_shape) else '(Some (%s, %s, %s))' % (
+                S(str(app[0][0])), ct(app[0][2]), copts(app[0][3], False))
             cases.append('((%s, %s, %s, %s, (%s, %s, %s)) : tmpl_case)' % (
                 L([S(x) for x in created]),
                 L(['(mkR %s %s %s %s)' % (S(n), L([S(x) for x in ps]), t, o) for n, ps, t, o in rds]),
@@ -1293,6 +1296,181 @@ def run_option_corpus(ctx, load_cases, load_meta):
                                   % (str(a)[:200], str(b)[:200], parser, opts, t))
 
 # ----------------------------------------------------------------------------------------------
+# histories: ONE process, the same top-level grammar text loaded again and again while the modules it imports
+# change (another import_paths directory / the module file rewritten in place / changed back).  Every load must
+# mean what ITS hand-inlined grammar means - nothing of an earlier load (parsed trees, resolved terminal
+# references, builder state) may survive.  The top-level grammar has a terminal built from an imported terminal
+# (its tree is the only one load_grammar does not copy before resolve_term_references rewrites it in place).
+# ----------------------------------------------------------------------------------------------
+def vary_modules(prog, tag):
+    """the same program with other literals in the terminals of every imported module (main untouched)"""
+    def v_item(it):
+        if it[0] == 'lit':
+            return ('lit', it[1].upper() + tag if it[1].isalpha() else it[1])
+        if it[0] in ('grp', 'opt'):
+            return (it[0], [([v_item(i) for i in seq], al) for seq, al in it[1]])
+        if it[0] == 'rep':
+            return ('rep', v_item(it[1]), it[2])
+        return it
+
+    def v_stmt(st):
+        if st[0] == 'term':
+            return ('term', st[1], st[2], [([v_item(i) for i in seq], al) for seq, al in st[3]])
+        if st[0] in ('override', 'extend'):
+            return (st[0], v_stmt(st[1]))
+        return st
+    return {p: (st if p == ('main',) else [v_stmt(x) for x in st]) for p, st in prog.items()}
+
+
+def gen_history_program(rng):
+    for _ in range(200):
+        prog, info = gen_program(rng, False)
+        if info.get('skip_b') or len(prog) < 2:
+            continue
+        main = prog[('main',)]
+        iterms = [loc for (imp, loc) in info.get('origin', {}) if imp == 'main']
+        if not iterms:
+            continue
+        t = rng.choice(sorted(iterms))
+        # a top-level terminal built from the imported one, reachable from start
+        main.append(('term', 'HX', None, [([('sym', t), ('lit', '!')], None)]))
+        for i, st in enumerate(main):
+            if st[0] == 'rule' and st[2] == 'start':
+                main[i] = st[:5] + (st[5] + [([('sym', 'HX')], None)],)
+        try:
+            inline_program(prog)
+        except SpecError:
+            continue
+        return prog, info
+    return None, None
+
+
+def run_histories(ctx, load_cases, load_meta):
+    rng = ctx.rng
+    for h in range(ctx.scale(8, 60)):
+        prog, info = gen_history_program(rng)
+        if prog is None:
+            continue
+        main_text = p_module(prog[('main',)])
+        variants = [prog, vary_modules(prog, 'q'), vary_modules(prog, 'r')]
+        d0 = os.path.join(ctx.scratch, 'hist%d_a' % h)
+        d1 = os.path.join(ctx.scratch, 'hist%d_b' % h)
+        # (directory, variant): another directory, back, the file rewritten in place, and rewritten back
+        steps = [(d0, 0), (d1, 1), (d0, 0), (d0, 2), (d0, 0)]
+        opts = {'keep_all_tokens': rng.random() < 0.3, 'maybe_placeholders': rng.random() < 0.5}
+        for k, (d, vi) in enumerate(steps):
+            vp = variants[vi]
+            files = {p: p_module(st) for p, st in vp.items() if p != ('main',)}
+            write_program(files, d)
+            try:
+                defs, ignore, inl_text, labels = inline_program(vp, by_hand_templates=(k % 2 == 1))
+            except SpecError:
+                break
+            srcs = [(dd['module'], dd['origin']) for dd in defs.values() if dd['is_term']]
+            diamond = len(srcs) != len(set(srcs))
+            # (a) the builder's definitions of THIS load against the model
+            try:
+                term, obs, msg = load_case_term(files, main_text, d, opts['keep_all_tokens'])
+                load_cases.append(term)
+                load_meta.append((files, main_text, inl_text, labels, {'shape': 'history step %d' % k, 'opts': opts}))
+                ctx.count('history-load', key=(main_text, k, vi), nontrivial=True, step=k)
+            except Exception as ex:
+                ctx.note('history: load_case_term failed: %r' % (ex,))
+            # (b) the differential of THIS load against its own hand-inlined grammar
+            if diamond:
+                continue
+            texts = gen_inputs(defs, ignore, rng, 3, 1, 0)
+            for parser in ('lalr', 'earley'):
+                try:
+                    bad, acc = differential(files, main_text, inl_text, labels, texts, parser, d, opts)
+                except Exception as ex:
+                    ctx.violation('differential-raised', dict(witness(files, main_text, inl_text, labels, parser, '', opts),
+                                                             history=history_witness(variants, steps[:k + 1], main_text)),
+                                  True, 'unexpected exception %r at step %d of a history' % (ex, k))
+                    continue
+                for t in texts:
+                    ctx.count('history-parse', key=(main_text, k, t, parser), nontrivial=True, step=k, parser=parser)
+                for kind, t, a, b in bad[:1]:
+                    ctx.violation('inlining-differential:history-' + kind,
+                                  dict(witness(files, main_text, inl_text, labels, parser, t or '', opts),
+                                       history=history_witness(variants, steps[:k + 1], main_text)), True,
+                                  'load number %d of the same top-level grammar text in one process (modules changed in '
+                                  'between): modular grammar gives %s, the hand-inlined grammar gives %s (parser=%s, text=%r)'
+                                  % (k + 1, str(a)[:160], str(b)[:160], parser, t))
+
+
+def history_witness(variants, steps, main_text):
+    """the loads to replay in order: [(directory tag, {module: text})]"""
+    return [{'dir': os.path.basename(d), 'files': {'.'.join(p): p_module(st) for p, st in variants[vi].items() if p != ('main',)}}
+            for d, vi in steps]
+
+
+# ----------------------------------------------------------------------------------------------
+# systematic family: the instance of a template has the template's options (modifiers, priority, label)
+# - every modifier x priority x where the template lives x order of the competing alternative; the priority
+# decides which of two derivations Earley returns and whether LALR can be built at all
+# ----------------------------------------------------------------------------------------------
+def template_option_family():
+    out = []
+    LET = 'LETTERS: /[a-z0-9]+/\n'
+    for mods in ('', '!', '?', '?!'):
+        for prio in (None, 2, -1):
+            ps = '' if prio is None else '.%d' % prio
+            for first in (False, True):
+                for loc in ('local', 'imported-template', 'imported-rule'):
+                    name = 'tmplopt:%s:%s:%s:%s' % (mods or '-', prio, 'tmpl-first' if first else 'tmpl-second', loc)
+                    if loc == 'imported-rule':
+                        alts = 'w | num' if first else 'num | w'
+                        files = {('m',): 'w: word{LETTERS}\n%sword{t}%s: t "!"\n%s' % (mods, ps, LET)}
+                        main = '%%import m (w, LETTERS)\nstart: %s\nnum: LETTERS "!"\n' % alts
+                        inl = 'start: %s\nnum: LETTERS "!"\nw: m__word\n%sm__word%s: LETTERS "!"\n%s' % (alts, mods, ps, LET)
+                    else:
+                        alts = 'word{LETTERS} | num' if first else 'num | word{LETTERS}'
+                        ialts = 'word | num' if first else 'num | word'
+                        tdef = '%sword{t}%s: t "!"\n' % (mods, ps)
+                        if loc == 'local':
+                            files = {}
+                            main = 'start: %s\n%snum: LETTERS "!"\n%s' % (alts, tdef, LET)
+                        else:
+                            files = {('m',): tdef}
+                            main = '%%import m.word\nstart: %s\nnum: LETTERS "!"\n%s' % (alts, LET)
+                        inl = 'start: %s\n%sword%s: LETTERS "!"\nnum: LETTERS "!"\n%s' % (ialts, mods, ps, LET)
+                    out.append(dict(name=name, files=files, main=main, inlined=inl, labels={}, texts=['abc!', 'x1', '!']))
+    for p1, p2 in ((3, 3), (None, 2), (-1, None), (2, -2)):
+        f = lambda p: '' if p is None else '.%d' % p
+        out.append(dict(name='tmplopt:nested:%s:%s' % (p1, p2), files={},
+                        main=('start: pair{A, B} | other\npair{x, y}%s: wrap{x} wrap{y}\nwrap{z}%s: z\nother: a b\n'
+                              'a: A\nb: B\nA: "a"\nB: "b"\n' % (f(p1), f(p2))),
+                        inlined=('start: pair | other\npair%s: wrap_a wrap_b\nwrap_a%s: A\nwrap_b%s: B\nother: a b\n'
+                                 'a: A\nb: B\nA: "a"\nB: "b"\n' % (f(p1), f(p2), f(p2))),
+                        labels={'wrap_a': 'wrap', 'wrap_b': 'wrap'}, texts=['ab', 'a']))
+    return out
+
+
+def run_template_option_family(ctx, tmpl_cases, tmpl_meta):
+    for idx, e in enumerate(template_option_family()):
+        d = os.path.join(ctx.scratch, 'topt_%d' % idx)
+        write_program(e['files'], d)
+        for parser, opts in (('earley', {}), ('earley', {'lexer': 'basic'}), ('lalr', {})):
+            bad, acc = differential(e['files'], e['main'], e['inlined'], e['labels'], e['texts'], parser, d, opts)
+            for t in e['texts']:
+                ctx.count('template-options', key=(e['name'], t, parser, repr(opts)), nontrivial=True)
+            for kind, t, a, b in bad[:1]:
+                ctx.violation('inlining-differential:' + kind,
+                              witness(e['files'], e['main'], e['inlined'], e['labels'], parser, t or '', opts), True,
+                              'template instance vs hand-written instance (%s): modular grammar gives %s, the hand-inlined '
+                              'grammar gives %s (parser=%s %s, text=%r)' % (e['name'], str(a)[:160], str(b)[:160], parser, opts, t))
+        # the instantiation steps themselves, against the model (options of the instance included)
+        try:
+            for c in record_templates(e['main'], d):
+                tmpl_cases.append(c)
+                tmpl_meta.append((e['files'], e['main'], e['inlined'], e['labels']))
+                ctx.count('template-step', key=c, nontrivial=True)
+        except Exception as ex:
+            ctx.note('template recording failed on %s: %r' % (e['name'], ex))
+
+
+# ----------------------------------------------------------------------------------------------
 def correspond(ctx):
     rng = ctx.rng
     wide = 3 if ctx.widen else 1
@@ -1413,6 +1591,8 @@ def correspond(ctx):
             ctx.histo['feature'][f] = ctx.histo['feature'].get(f, 0) + 1
 
     run_option_corpus(ctx, load_cases, load_meta)
+    run_template_option_family(ctx, tmpl_cases, tmpl_meta)
+    run_histories(ctx, load_cases, load_meta)
     uc = unpack_cases(import_texts)
     for c, m in uc:
         ctx.count('unpack-import', key=c, nontrivial=True)
@@ -1471,6 +1651,15 @@ def replay(ctx, case):
     files = {tuple(k.split('.')): v for k, v in w['files'].items()}
     d = os.path.join(ctx.scratch, 'replay')
     write_program(files, d)
+    if w.get('history'):
+        # replay every load of the history in order, in this process; the last one is the failing load
+        for step in w['history'][:-1]:
+            hd = os.path.join(ctx.scratch, 'replay_' + step['dir'])
+            write_program({tuple(k.split('.')): v for k, v in step['files'].items()}, hd)
+            for parser in ('lalr', 'earley'):
+                build(w['main'], parser, hd, **(w.get('options') or {}))
+        d = os.path.join(ctx.scratch, 'replay_' + w['history'][-1]['dir'])
+        write_program(files, d)
     if case.get('stage') == 'import-error-agreement':
         obs, msg = observe_builder(w['main'], d, bool((w.get('options') or {}).get('keep_all_tokens')))
         return (obs is None) != (w['inlined'] is None)
